@@ -29,7 +29,7 @@ const (
 var writeLog func(name string, region *Term)
 
 func logWrite(m *Mem, region *Term) {
-	if writeLog != nil && len(m.ksort) == 2 {
+	if writeLog != nil && (len(m.ksort) == 2 || len(m.ksort) == 1) {
 		writeLog(m.name, region)
 	}
 }
@@ -117,7 +117,7 @@ func (m *Mem) Write(keys []*Term, val *Term) *Mem {
 	if val.sort != m.sort {
 		panic(fmt.Sprintf("mem %s: write sort %v into %v", m.name, val.sort, m.sort))
 	}
-	if len(keys) == 2 {
+	if len(keys) == 2 || len(keys) == 1 {
 		logWrite(m, keys[0])
 	}
 	n := m.derive(MWrite)
